@@ -65,6 +65,7 @@ Proof.
   assert (BK : 8 * N.of_nat (wc_k c) / 8 = N.of_nat (wc_k c)) by (rewrite N.mul_comm; apply N.div_mul; lia).
   assert (BZ : negb (8 * N.of_nat (wc_k c) =? 0) = true) by (destruct K as [-> | [-> | ->]]; reflexivity).
   rewrite BW. cbn [andb]. rewrite <- app_assoc.
+  rewrite guard_idx_uleb by (rewrite ?lenN_ok; apply le_groups). rewrite andb_true_r.
   destruct selfmade.
   - rewrite uleb_roundtrip, BK, lenN_ok.
     change [0; 0; 0; 0; 0; 0; 0; 0] with (zeros 8).
@@ -179,7 +180,8 @@ Proof.
     assert (RC : forall m, m = length (somes codes) ->
                raw_codes (N.of_nat (wc_k c)) m (wr_codes (wc_k c) (somes codes)) [] = Some (somes codes)).
     { intros m ->. rewrite <- (app_nil_r (wr_codes _ _)). now rewrite raw_codes_wr. }
-    rewrite BW. destruct selfmade; cbn [andb].
+    rewrite BW. rewrite guard_idx_uleb by (rewrite ?lenN_ok; apply le_groups). rewrite andb_true_r.
+    destruct selfmade; cbn [andb].
     + rewrite uleb_roundtrip, LC.
       destruct (N.of_nat (wc_k c) * lenN (somes codes) =? lenN codes * N.of_nat (wc_k c)) eqn:SAME.
       * apply N.eqb_eq in SAME. assert (FULL : lenN (somes codes) = lenN codes) by nia.
